@@ -112,23 +112,30 @@ PROPS = {
     },
     "C07": {
         "level": "exploration", "sim": True,
-        "technique": "property-based testing: bounded-exhaustive small rollouts + rapid random ones; oracle = per-sync monitor over ControllerRevisions, request log and hook log",
-        "level_text": "rollouts are generated and run sync by sync against the simulator; each sync is judged against an independent gate/ordering predicate",
-        "rule": "work in progress: currently hand-written regression cases",
+        "technique": "property-based testing: bounded-exhaustive enumeration of small rollouts + rapid random larger ones; oracle = an independently written reference model of one rollout step (claims, immediate moves, the single gated move, the health gate) compared with ControllerRevisions, request log and the Updated condition after every sync",
+        "level_text": "every sync of a generated rollout history is compared with a reference model of the rollout step computed from the pre-state; small rollouts are enumerated exhaustively, larger ones sampled",
+        "rule": ("rollout histories: 1-2 (exhaustive) or 1-5 (random) rolling children under RollingInPlace/RollingRecreate x status checks (none, type, type+status, type+status+reason) x default/custom field paths x hook with/without its own Updated condition; "
+                 "per step a parent edit (none, revisioned template change, non-revisioned/revisioned 'other' change, scale up/down) and an environment choice per child (healthy, unhealthy, lagging observedGeneration, Ready for another reason, deleted); "
+                 "non-trivial = at least one sync ran with two or more live revisions; distinct = distinct choice sequences"),
         "jobs": [
             {"name": "c07-regress", "pkg": COMPOSITE, "tests": ["TestVerifC07Regressions"]},
+            {"name": "c07-exh", "pkg": COMPOSITE, "tests": ["TestVerifC07Exhaustive"], "timeout": {"quick": 900, "thorough": 3400},
+             "shards": {"quick": 8, "thorough": 14}},
+            {"name": "c07-rand", "pkg": COMPOSITE, "tests": ["TestVerifC07Random"],
+             "checks": {"quick": 2400, "thorough": 100000}, "shards": {"quick": 8, "thorough": 12}},
         ],
-        "disabled": "generated check for C07 not built yet; only regression cases exist",
     },
     "C08": {
         "level": "exploration", "sim": True,
-        "technique": "property-based testing (rapid): generated rollouts under a fair environment; oracle = bounded-liveness (completion within 3n+6 syncs, Updated=True, one revision left) and an independent health predicate for every RolloutWaiting",
-        "level_text": "liveness turned into a finite-history property by an explicit sync bound under an explicit fair environment; rollouts are generated and run against the simulator",
-        "rule": "work in progress: currently hand-written regression cases for the repaired rollout stall",
+        "technique": "property-based testing (rapid): generated rollouts under a fair environment; oracle = bounded liveness (all children at the latest desired state, Updated=True, one ControllerRevision left within 3n+6 syncs) + reference-model check of every RolloutWaiting",
+        "level_text": "liveness is turned into a finite-history property by an explicit sync bound under an explicit fair environment (every child made healthy after each sync, caches fresh, no faults); termination under unfair environments is not claimed",
+        "rule": ("rapid-generated rollouts of 1-6 rolling children x RollingInPlace/RollingRecreate x status checks x field paths x fixed/replicated names, one revisioned change and optionally a second change (revisioned or scale) 0-2 syncs later, "
+                 "all under the fair environment; non-trivial = at least 2 rolling children; distinct = distinct choice sequences"),
         "jobs": [
-            {"name": "c08-regress", "pkg": COMPOSITE, "tests": ["TestVerifC08Regressions"]},
+            {"name": "c08-regress", "pkg": COMPOSITE, "tests": ["TestVerifC08Regressions", "TestVerifC08RegressionsScale"]},
+            {"name": "c08-rand", "pkg": COMPOSITE, "tests": ["TestVerifC08Random"],
+             "checks": {"quick": 1600, "thorough": 60000}, "shards": {"quick": 8, "thorough": 12}},
         ],
-        "disabled": "generated check for C08 not built yet; only regression cases exist",
     },
     "C10": {
         "level": "exploration", "sim": True,
